@@ -18,6 +18,17 @@ claimed = {
  "C17": dict(text="Bounded symbolic verification of dispatch on symbolic method-name byte strings (all byte values, bounded length) against a reference split; reserved-prefix gate for both builtin settings.", ref="4 (C17)",
              note="name length bounds; sort.Strings / strings helpers are engine intrinsics"),
 }
+STEP = "inductive single-step verification from an arbitrary invariant-satisfying state (symbolic ids/counters): histories of any length; data bounds only"
+claimed.update({
+ "C01": dict(text="Bounded symbolic run of the real dispatcher closure (handler goroutines as engine threads) with symbolic handler outcomes and ids; reply parsed back and compared per call.", ref="4 (C01)", note="batch <= 2 (thorough 3); json stub; delay-bounded scheduler"),
+ "C04": dict(text=STEP + " - client pending set: matching by id text, id freshness, Batch order.", ref="4 (C04), 2.6", note="<= 2 pending in pre-state, Batch <= 3; FormatInt as injective opaque token; json stub"),
+ "C05": dict(text=STEP + " - client completion exactly once, stop semantics, hooks; plus a threaded NewClient run for Close-waits-for-callbacks.", ref="4 (C05), 2.6", note="goroutine-leak clause only for the threads of the explored runs; delay bound 2"),
+ "C06": dict(text="Options arithmetic for all 64-bit values by the solver; bounded threaded run of the dispatcher with the real semaphore source for limit in {1,2}: never above the limit, all slots used while requests wait, cancelled waiter never runs.", ref="4 (C06)", note="limit <= 2 in the run; delay bound 2"),
+ "C08": dict(text="Bounded symbolic run of a real started server through traffic, each stop cause, late records, WaitStatus and restart, with scheduler decisions explored up to the delay bound; any panic/deadlock/wrong status is a violation.", ref="4 (C08)", note="<= 1 call, 2 notifications, 1 malformed, 1 late record; delay bound 2 (thorough 3)"),
+ "C09": dict(text=STEP + " - outstanding callbacks: push gate, closed-connection check, reply matching, late replies dropped, context end, stop.", ref="4 (C09), 2.6", note="<= 2 outstanding callbacks, batch <= 2"),
+ "C10": dict(text="Channel-discipline assertions (lock held by the calling thread at Send/Close, single Recv, single Close, record shape) evaluated inside the engine on every path and schedule of the threaded and step harnesses.", ref="4 (C10)", note="workloads of the listed harnesses; delay bound"),
+ "C13": dict(text="Bounded symbolic round trip encoder -> parser over opaque JSON tokens (all values of each kind), producers executed on their real paths, ParseRequests vs reference classification.", ref="4 (C13)", note="encoding/json stub is the trusted base for what Marshal emits; name length bounds"),
+})
 checks = []
 for p in props:
     pid = p['id']
